@@ -37,10 +37,19 @@ CheckC11(e) ==
 
 Check(e) == IF Mode = "C11" THEN CheckC11(e) ELSE CheckC01(e)
 
+\* what the reference interpreter expects (printed for rejected lines when VERIF_EXPLAIN is set)
+Explain(e) ==
+  LET pre == DecCore(e.pre)
+      r   == ExecTask(pre, e.pc, [M |-> e.M, RL |-> e.RL, WL |-> e.WL])
+  IN [executing |-> pre[e.pc], queue |-> Cap(r.push, e.P),
+      changed |-> {<<a, r.core[a]>> : a \in {x \in 0..e.M-1 : r.core[x] # pre[x]}}]
+
 VARIABLE l
 Init == l = 1
 Next == /\ l <= Len(Trace)
         /\ l' = l + 1
-        /\ IF Check(Trace[l]) THEN TRUE ELSE PrintT(<<"REJECT", l>>)
+        /\ IF Check(Trace[l]) THEN TRUE
+           ELSE /\ PrintT(<<"REJECT", l>>)
+                /\ ("VERIF_EXPLAIN" \in DOMAIN IOEnv) => PrintT(<<"EXPECT", l, Explain(Trace[l])>>)
 Accepted == TLCGet("stats").diameter - 1 = Len(Trace)
 =============================================================================
